@@ -121,8 +121,14 @@ def run_check(prop, tier, seed):
                 known_hits.append((k, code, note))
             else:
                 violations.append((code, evs, note))
+        # The trace specification lists at most 25 failures per demand code and chunk. Unlisted
+        # failures share their code with listed ones; that only matters when every listed failure of
+        # a claimed code was explained by a known finding (the unlisted ones might not be).
         if overflow and not violations:
-            raise vf.HarnessError('%d further failed demands beyond the per-chunk cap were not classified' % overflow)
+            known_codes = set(c for (_, c, _) in known_hits)
+            if known_codes:
+                raise vf.HarnessError('%d failed demands beyond the per-code cap could not be matched against known findings (%s)'
+                                      % (overflow, ', '.join(sorted(known_codes))))
 
         for (k, code, note) in known_hits[:20]:
             vf.log('KNOWN-FINDING: property=%s %s [%s at %s]' % (prop, k['what'], code, note))
